@@ -643,7 +643,10 @@ func (ff *FuncFacts) holdsOnEveryPath(ins ssa.Instruction, pred factPred, depth 
 }
 
 func (ff *FuncFacts) blockEdgesHold(b *ssa.BasicBlock, pred factPred, depth int, seen map[*ssa.BasicBlock]bool) bool {
-	if depth == 0 || seen[b] || len(b.Preds) == 0 {
+	if seen[b] {
+		return true // reached again round a loop: holds if it holds on the entry edges (coinduction over loop-invariant facts)
+	}
+	if depth == 0 || len(b.Preds) == 0 {
 		return false
 	}
 	seen[b] = true
